@@ -193,7 +193,7 @@ def execute_generic(prop, scenario, params, streams=None):
         # the freshly built module must match its own model
         obs = observe.Obs(world, model)
         mt = oracles.align_model(world, model, obs, prop)
-        if not gen.module_shape_ok(model):
+        if not gen.module_shape_ok(model) or not gen.module_desc_ok(scenario["module"]):
             raise core.Rejected("module violates the generator's shape preconditions")
         for si in range(nsess):
             if si < len(scenario["sessions"]):
@@ -206,9 +206,11 @@ def execute_generic(prop, scenario, params, streams=None):
                 def gen_cb(m, hist=hist, si=si):
                     return gen.gen_session(hist, m, params, si)
 
+            pre08 = oracles.c08_pre(mt) if prop == "C08" else None
             sess = driver.run_session(
                 world, model, sdesc, prop, si, gen_cb=gen_cb, check_shape=lambda m, sd: gen.shape_ok(m, sd, params) and gen.ops_allowed(m, sd)
             )
+            sess.c08_pre = pre08
             if sdesc is None:
                 scenario["sessions"].append(sess.desc)
             stats["sessions"] += 1
@@ -445,7 +447,7 @@ def _module_candidates(sc):
     for si, sec in enumerate(mod["sections"]):
         for ui, u in enumerate(sec["units"]):
             for bi, b in enumerate(u["blocks"]):
-                if len(b["items"]) < 2:
+                if len(b["items"]) < 2 or b.get("cfi"):
                     continue
                 for ii, it in enumerate(b["items"][:-1]):
                     if it["id"] in used_toks:
